@@ -200,6 +200,29 @@ type widthAnalysis struct {
 
 // counterMax: v is a counter phi(c0, v+k) (k > 0) whose increments are guarded by `v < U` / `v >= U -> exit`;
 // returns the maximal value it can take at its uses.
+// shiftMaxAt: the largest value of a shift amount: a bounded counter, or a constant multiple of one (`7*i`).
+func (w *widthAnalysis) shiftMaxAt(v ssa.Value, at ssa.Instruction) (int64, bool) {
+	if m, ok := w.counterMaxAt(v, at); ok {
+		return m, true
+	}
+	if cv, ok := v.(*ssa.Convert); ok {
+		return w.shiftMaxAt(cv.X, at)
+	}
+	if b, ok := v.(*ssa.BinOp); ok && b.Op == token.MUL {
+		if k, isK := constInt(b.X); isK && k > 0 {
+			if m, ok := w.shiftMaxAt(b.Y, at); ok {
+				return k * m, true
+			}
+		}
+		if k, isK := constInt(b.Y); isK && k > 0 {
+			if m, ok := w.shiftMaxAt(b.X, at); ok {
+				return k * m, true
+			}
+		}
+	}
+	return 0, false
+}
+
 // counterMaxAt: the largest value the counter can have at instruction `at`: counterMax refined by the comparisons
 // `v < K` / `v <= K` whose edges dominate `at`, rounded down to the counter's residue class.
 func (w *widthAnalysis) counterMaxAt(v ssa.Value, at ssa.Instruction) (int64, bool) {
@@ -433,7 +456,7 @@ func (w *widthAnalysis) width1(v ssa.Value) int {
 			if k, ok := constInt(x.Y); ok {
 				return a + int(k)
 			}
-			if m, ok := w.counterMaxAt(x.Y, x); ok {
+			if m, ok := w.shiftMaxAt(x.Y, x); ok {
 				return a + int(m)
 			}
 			if w.note == "" {
